@@ -2,6 +2,7 @@
 From Coq Require Import NArith ZArith List.
 From Coq Require Extraction ExtrOcamlBasic.
 From ZV.Codec Require Import Bytes.
-From ZV.Stream Require Import DStreamModel StreamInst C10Hints C10Inst.
+From ZV.Stream Require Import DStreamModel CStreamModel StreamInst C10Hints C10Api C10Inst.
 Extraction Language OCaml.
-Extraction "Extract/out/c10model.ml" Rhread Rsread Rextent default_dparams.
+Extraction "Extract/out/c10model.ml" Rhread Rsread Rextent default_dparams
+  Ta_new Ta_call Ta_stream Ta_flushStream Ta_endStream Ta_reset Ta_wview Ta_hint.
